@@ -881,6 +881,16 @@ def constructor_dataflow(mir):
         return False, 'the string is not wrapped into IppValue::Uri'
     if 'const IppAttribute::PRINTER_URI' not in body and 'PRINTER_URI' not in body:
         return False, 'printer-uri attribute name not used'
+    # no other way into a Uri value: every IppValue::Uri built in the constructor must be that string
+    uris = re.findall(r'= value::IppValue::Uri\(move _(\d+)\);', body)
+    if len(uris) != 1 or uris[0] != ts.group(1):
+        return False, 'the constructor builds %d IppValue::Uri values; exactly one, from canonicalize_uri(..).to_string(), is expected' % len(uris)
+    if len(re.findall(r'canonicalize_uri\(', body)) != 1:
+        return False, 'canonicalize_uri is called %d times in the constructor' % len(re.findall(r'canonicalize_uri\(', body))
+    # the target URI must not be converted to text by any other route
+    others = [m for m in re.findall(r'<Uri as ToString>::to_string\((?:move|copy) _(\d+)\)', body) if m != ref.group(1)]
+    if others:
+        return False, 'the target URI is also converted to a string without canonicalisation'
     return True, 'canonicalize_uri(&uri).to_string() flows into IppValue::Uri for printer-uri'
 
 
